@@ -1368,5 +1368,47 @@ def populateLater (J : Json) (evalE : Bytes → Except Err Val) (validate : FVal
     (b : Binder) (ops : List (Bytes × Val)) (late : List HProp) : List HProp × Option Err :=
   populateAll J evalE validate (b.setAll ops).get stageOrder late
 
+/-! ## tag-less fields that name their own prefix (definition.ConfigurationProperties)
+
+  properties_aware_post_processors.go:23-29 (ExtractHandler of the prefix scanner) and
+  default_tag_scan_definition_registry_post_processor.go:20-38: a field WITHOUT a `prefix` tag becomes a configuration
+  property exactly when `field.Value.Interface().(definition.ConfigurationProperties)` succeeds — the assertion is about
+  the field's OWN dynamic value, so Go's method sets decide — and its TagVal is what `Prefix()` answers WHEN CALLED ON THAT
+  VALUE.  `Prefix` is user code: its answer on the field's own value is the parameter `own`. -/
+
+/-- how the field and the method are declared, and whether a pointer field is nil at scan time -/
+inductive CPShape
+  | ptrPtrRecv   -- F *T, non-nil, func (*T) Prefix()
+  | nilPtrRecv   -- F *T, nil,     func (*T) Prefix()   (the method is called with a nil receiver and answers)
+  | ptrValRecv   -- F *T, non-nil, func (T) Prefix()    (the method set of *T contains the value-receiver methods)
+  | nilValRecv   -- F *T, nil,     func (T) Prefix()    (Go panics: value method called using nil pointer)
+  | valValRecv   -- F T,           func (T) Prefix()
+  | valPtrRecv   -- F T,           func (*T) Prefix()   (the method set of T does not contain it: the assertion fails)
+deriving DecidableEq, Repr
+
+/-- the ExtractHandler: `none` = not a configuration property, the field is left alone -/
+def extractPrefix (sh : CPShape) (own : Bytes) : Except Err (Option Bytes) :=
+  match sh with
+  | .valPtrRecv => .ok none
+  | .nilValRecv => .error .panic
+  | _ => .ok (some own)
+
+/-- the scanned property of a tag-less field: `NewProperty(field, Configuration, "prefix", Prefix())` -/
+def taglessProp (sh : CPShape) (own : Bytes) (ty : FieldTy) : Except Err (Option HProp) :=
+  match extractPrefix sh own with
+  | .error e => .error e
+  | .ok none => .ok none
+  | .ok (some p) =>
+    match freshProp false p ty with
+    | none => .error .panic
+    | some hp => .ok (some hp)
+
+/-- binding through the tag-less route (C17): `none` = the field is not bound at all -/
+def bindTagless (J : Json) (cfg : Cfg) (sh : CPShape) (own : Bytes) (ty : FieldTy) : Except Err (Option FVal) :=
+  match extractPrefix sh own with
+  | .error e => .error e
+  | .ok none => .ok none
+  | .ok (some p) => (bindPrefix J cfg ty p).map some
+
 end Value
 end Ioc
